@@ -115,6 +115,8 @@ class Peer:
                 return [N(7)], 'malformed'
             pr = sa['proposals'][0]
             if pr['proto'] == 1:
+                if getattr(self, 'ike_rekey_answer', None) is not None:
+                    return self.ike_rekey_answer(hdr, inner), 'ike-rekey-answered-by-the-script'
                 return [N(43)], 'ike-rekey-refused-temporary-failure'        # TEMPORARY_FAILURE: legal, the initiator retries later
             rekey = next((x for x in inner if x['type'] == codec.NOTIFY and x.get('ntype') == 16393), None)
             chosen = {}
